@@ -130,8 +130,8 @@ theorem invoke_elide (E : Env) (gas : Nat) : invoke E.elide gas = invoke E gas :
 /-- **the whole observation is unchanged**: instantiation outcome, every result and trap of every
     call of the script, the host-call trace and the exported state -/
 theorem observe_elide (m : ModuleM) (E : Env) (gas seed rounds : Nat) :
-    observeWith m E.elide.ftab E.elide.usigs (invoke E.elide gas) seed rounds =
-    observeWith m E.ftab E.usigs (invoke E gas) seed rounds := by
+    observeWith m E.elide.resolve E.elide.usigs (invoke E.elide gas) seed rounds =
+    observeWith m E.resolve E.usigs (invoke E gas) seed rounds := by
   rw [invoke_elide, Env.elide_usigs]; rfl
 
 end Walrus.Sem
